@@ -4,7 +4,7 @@ flow. That the transformed state equals the dense image is not decided."""
 import ast
 import re
 
-from ..core import (AnalysisError, body_nodes, call_name, dotted, in_loop, is_self_attr, key_text,
+from ..core import (AnalysisError, split_assign, body_nodes, call_name, dotted, in_loop, is_self_attr, key_text,
                     kwarg, local_defs, names_in, params, parent, stmts_of, unparse)
 from ..normal import inline_temps
 from ..pattern import P, find, guards_of, pmatch
@@ -44,24 +44,22 @@ def check_coupled_order(prog, rep):
         q = 'MPS.' + f.name
         stores = []
         for st in f.body:  # top-level straight-line stores only
-            if isinstance(st, ast.Assign):
-                for t in st.targets:
-                    for e in (t.elts if isinstance(t, ast.Tuple) else [t]):
-                        if is_self_attr(e) and e.attr in CORE:
-                            stores.append((st, e.attr))
-        if len({a for _, a in stores}) < 2:
+            for e, v in split_assign(st):
+                if is_self_attr(e) and e.attr in CORE:
+                    stores.append((st, e.attr, v))
+        if len({a for _, a, _ in stores}) < 2:
             continue
         n += 1
         written = []
-        for st, attr in stores:
-            rd = _reads(st.value)
+        for st, attr, val in stores:
+            rd = _reads(val)
             rep.instance('MPS-coupled-order', {'function': q, 'store': key_text(st)[:70],
                                                'reads': sorted(rd), 'already_replaced': list(written)})
             stale = [w for w in written if w in rd and w != attr]
             # reading a list that was already replaced by a re-ordered / re-sized version
             for w in stale:
-                wst = [s for s, a in stores if a == w][0]
-                if _is_reindexing(wst.value, w):
+                wst, wval = [(s, v) for s, a, v in stores if a == w][0]
+                if _is_reindexing(wval, w):
                     rep.violation('MPS-coupled-order', m, q,
                                   'reads-replaced:%s-after-%s' % (attr, w),
                                   '`%s` is evaluated after `self.%s` was already replaced by its '
@@ -70,7 +68,7 @@ def check_coupled_order(prog, rep):
                                   (key_text(st)[:70], w, key_text(wst)[:60], w), st.lineno)
             written.append(attr)
         # all four lists are replaced together when one is re-indexed
-        reidx = {a for s, a in stores if _is_reindexing(s.value, a)}
+        reidx = {a for s, a, v in stores if _is_reindexing(v, a)}
         if reidx and f.name not in ('set_B', ):
             everywhere = set()
             for st2 in stmts_of(f):
@@ -80,7 +78,7 @@ def check_coupled_order(prog, rep):
                             if is_self_attr(e) and e.attr in CORE:
                                 everywhere.add(e.attr)
             missing = [a for a in CORE if a not in everywhere]
-            rep.instance('MPS-coupled-all', {'function': q, 'replaced': sorted({a for _, a in stores})})
+            rep.instance('MPS-coupled-all', {'function': q, 'replaced': sorted({a for _, a, _ in stores})})
             if missing:
                 rep.violation('MPS-coupled-all', m, q, 'not-replaced:' + ','.join(missing),
                               '%s re-indexes %s but leaves %s in the old order: tensors, forms, '
@@ -107,10 +105,8 @@ def check_form_flow(prog, rep):
         if not isinstance(f, ast.FunctionDef):
             continue
         q = 'MPS.' + f.name
-        for st in stmts_of(f):
-            if not (isinstance(st, ast.Assign) and any(is_self_attr(t, '_B') for t in st.targets)):
-                continue
-            val = st.value
+        for st, val in [(s0, v) for s0 in stmts_of(f) for t, v in split_assign(s0)
+                        if is_self_attr(t, '_B')]:
             if isinstance(val, ast.Name):
                 # resolve a local that holds the new list
                 nm = val.id
@@ -210,8 +206,7 @@ def check_bond_lists(prog, rep):
             continue
         q = 'MPS.' + f.name
         for st in stmts_of(f):
-            if isinstance(st, ast.Assign) and any(is_self_attr(t, '_S') for t in st.targets):
-                v = st.value
+            for v in [vv for t, vv in split_assign(st) if is_self_attr(t, '_S')]:
                 raw = any(isinstance(n, ast.Attribute) and is_self_attr(n, '_S')
                           for n in ast.walk(v))
                 if not raw or not _is_reindexing(v, '_S'):
